@@ -32,6 +32,8 @@ for f in sorted(glob.glob(os.path.join(ROOT, "known_findings.d", "*.json"))):
     if os.path.basename(f)[:-5] not in reg["checks"]:
         continue        # fragment of a property that is not registered yet
     for e in json.load(open(f)):
+        if e.get("status") != "finding":
+            continue        # repaired defects are recorded by the coordinator as status=fixed
         if e["id"] not in by_id:
             by_id[e["id"]] = e
             kf["findings"].append(e)
